@@ -36,8 +36,7 @@ func (h *History) Load(filename string) {
 			}
 			panic(err)
 		}
-		line = bytes.TrimSpace(line)
-		if 0 < len(line) {
+		if 0 < len(bytes.TrimSpace(line)) {
 			var form Form
 			for _, sub := range bytes.Split(line, []byte{'\t'}) {
 				form = append(form, []rune(string(sub)))
